@@ -261,6 +261,8 @@ def enumerate_primitives(geo, rng):
     if cons:
         ops.append(['delete_connection', list(cons[0])])
         ops.append(['delete+add_connection', list(cons[-1])])
+        # a connection that exists already, given again (same column order): documented as adding nothing
+        ops.append(['add_existing_connection', list(cons[len(cons) // 2])])
     ops.append(['add_node', 'zzn'[:geo.colname_length].rjust(geo.colname_length), [999.0, 999.0]])
     ops.append(['add+delete_node', 'zzn'[:geo.colname_length].rjust(geo.colname_length), [999.0, 999.0]])
     ops.append(['add_layer_below', 'zz'[:geo.layername_length].rjust(geo.layername_length), 25.0])
@@ -335,6 +337,9 @@ def apply_op(geo, op):
         con = geo.connection[key]
         geo.delete_connection(key)
         geo.add_connection(mg.connection(list(con.column)))
+    elif k == 'add_existing_connection':
+        key = tuple(op[1]) if tuple(op[1]) in geo.connection else tuple(op[1][::-1])
+        geo.add_connection(mg.connection([geo.column[key[0]], geo.column[key[1]]]))
     elif k == 'add_node':
         geo.add_node(mg.node(op[1], np.array(op[2])))
     elif k == 'add+delete_node':
